@@ -263,6 +263,29 @@ func (d *driver) genesis(c cfg, txs []txop) error {
 
 func (d *driver) head() blk { return d.chain[len(d.chain)-1] }
 
+// noop is AccountsDB.Commit with nothing dirty (an empty block that does not touch the state): the root must stay
+func (d *driver) noop() error {
+	parent := d.head()
+	root, err := d.s.adb.Commit()
+	if err != nil {
+		return err
+	}
+	if d.s.id(root) != parent.rid {
+		return fmt.Errorf("Commit without changes moved the root: %d -> %d", parent.rid, d.s.id(root))
+	}
+	fresh, err := d.sync()
+	if err != nil {
+		return err
+	}
+	if len(fresh) > 1 || (len(fresh) == 1 && (fresh[0].kind != "c" || fresh[0].rid != parent.rid)) {
+		return fmt.Errorf("Commit started unexpected jobs: %d", len(fresh))
+	}
+	extra := d.jobObs()
+	extra["r"], extra["cp"] = parent.rid, len(fresh)
+	d.emit("CommitNoop", M{"x": 0}, extra)
+	return nil
+}
+
 // commit applies a fresh block (txs) or re-applies a rolled-back child of the head (reapply >= 0)
 func (d *driver) commit(txs []txop, reapply bool) error {
 	parent := d.head()
